@@ -311,6 +311,8 @@ class Combined(Base):
         for name, (m, cob) in self.maps.items():
             v += self.check(cob, [(cob, b"\x00", 0.1, False)] if cob in self.running else [],
                             "disconnect" if self.disconnected else "combined")
+        if self.disconnected and self.live():
+            v.append(("C17:disconnect:leak", "no cyclic transmission after disconnect()", [hex(t[0]) for t in self.live()]))
         return v
 
     def canon(self):
@@ -342,10 +344,90 @@ def cases(tier, seed):
             out.append({"producer": name, "mod": mod, "depth": None})
     for mod in (True, False):
         out.append({"producer": "combined", "mod": mod, "depth": 3 if tier == "quick" else 4})
+    for mod in (True, False):
+        for ss in (True, False):
+            out.append({"part": "reconnect", "mod": mod, "shutdown_stops": ss})
     return out
 
 
+RECONNECT_KINDS = ("sync", "r-rpdo", "l-tpdo", "heartbeat", "guarding")
+
+
+def run_reconnect(case, st):
+    """start, disconnect(), connect again, start again, stop: on an interface whose shutdown() cancels its cyclic tasks
+    (python-can's does) and on one that leaves that to the library.  The second start is accepted and exactly one
+    task transmits for the producer afterwards; after the stop none does."""
+    import canopen
+    for kind in RECONNECT_KINDS:
+        for stop_first in (False, True):
+            simenv.new_world()
+            bus = simenv.SimBus("inline", modifiable_tasks=case["mod"], shutdown_stops_tasks=case["shutdown_stops"])
+            net = canopen.Network()
+            bus.attach(net, "net")
+            r = net.add_node(canopen.RemoteNode(5, od()))
+            loc = net.add_node(canopen.LocalNode(6, od()))
+            r.rpdo[1].cob_id, loc.tpdo[1].cob_id = 0x205, 0x186
+            r.rpdo[1].add_variable(0x2000)
+            loc.tpdo[1].add_variable(0x2000)
+            can_id = {"sync": 0x80, "r-rpdo": 0x205, "l-tpdo": 0x186, "heartbeat": 0x706, "guarding": 0x705}[kind]
+
+            def start():
+                if kind == "sync":
+                    net.sync.start(0.1)
+                elif kind == "r-rpdo":
+                    r.rpdo[1].start(0.1)
+                elif kind == "l-tpdo":
+                    loc.tpdo[1].start(0.1)
+                elif kind == "heartbeat":
+                    loc.nmt.start_heartbeat(100)
+                else:
+                    r.nmt.start_node_guarding(0.1)
+
+            def stop():
+                if kind == "sync":
+                    net.sync.stop()
+                elif kind == "r-rpdo":
+                    r.rpdo[1].stop()
+                elif kind == "l-tpdo":
+                    loc.tpdo[1].stop()
+                elif kind == "heartbeat":
+                    loc.nmt.stop_heartbeat()
+                else:
+                    r.nmt.stop_node_guarding()
+            st.evaluations += 1
+            st.nontrivial_n += 1
+            rc = dict(case, kind=kind, stop_first=stop_first)
+            step = "start"
+            try:
+                start()
+                step = "disconnect"
+                net.disconnect()
+                bus.attach(net, "net")
+                if stop_first:
+                    step = "stop after re-connecting"
+                    stop()
+                step = "second start"
+                start()
+                live = [t.view()[:4] for t in bus.live_tasks() if t.view()[0] == can_id]
+                if len(live) != 1 or abs(live[0][2] - 0.1) > 1e-9:
+                    st.violation(f"C17:reconnect:{kind}:tasks-after-restart", rc, "one task with period 0.1",
+                                 [(hex(t[0]), t[2]) for t in live])
+                    continue
+                step = "stop"
+                stop()
+                live = [t.view()[:4] for t in bus.live_tasks() if t.view()[0] == can_id]
+                if live:
+                    st.violation(f"C17:reconnect:{kind}:leak-after-stop", rc, "no task", [(hex(t[0]), t[2]) for t in live])
+                    continue
+            except Exception as e:  # noqa: BLE001
+                st.violation(f"C17:reconnect:{kind}:raises:{type(e).__name__}", rc, f"{step} is accepted", repr(e)[:150])
+                continue
+            st.outcome("reconnect ok")
+
+
 def run_case(case, st):
+    if case.get("part") == "reconnect":
+        return run_reconnect(case, st)
     cls = make_cls(case["producer"], case["mod"])
     if "hist" in case:
         sim = cls()
